@@ -274,6 +274,8 @@ pub fn run_c17(seed: u64, run: u64) -> Acc {
     acc.virtual_ns += nres.virtual_ns;
     acc.evals += 1;
     acc.add("fault_fired:noise_items", n_noise);
+    acc.add("fault_fired:invalid_utf8_line", noisy.iter().filter(|(l, _)| l.contains(crate::verif_seam::INVALID_UTF8_MARK)).count() as u64);
+    acc.add("fault_fired:setoption_for_an_option_the_engine_lacks", noisy.iter().filter(|(l, _)| l.trim_start().starts_with("setoption") && !base.contains(l)).count() as u64);
     if n_noise > 0 {
         acc.nontrivial.insert(fnv(0, format!("{:?}", noisy).as_bytes()));
     }
